@@ -508,6 +508,34 @@ theorem leafward_never_asserts (F : SpecFns α) (t_i a_j b_j y mu : α) (ht : 0 
   simp only [Bool.and_eq_true, decide_eq_true_eq]
   exact ⟨⟨by linarith, ha⟩, ⟨by linarith, by linarith⟩, by linarith, by linarith⟩
 
+/-- The mutation kernel of a block with one fixed parent calls `_hyperu_laplace(a+k, b+k−1, z)`, `k = 1,2,3`, whose
+assert `b ≥ a` needs `y ≥ 0`: in exact arithmetic no assert fires for a non-negative mutation count … -/
+theorem mutation_sideways_never_asserts (F : SpecFns α) (t_i a_j b_j y mu : α) (ht : 0 < t_i) (hy : 0 ≤ y) :
+    pre_mutation_sideways_moments F t_i a_j b_j y mu = true := by
+  simp only [pre_mutation_sideways_moments, pre__hyperu_laplace, Nat.cast_zero, Nat.cast_one, Nat.cast_ofNat, add_zero]
+  simp only [Bool.and_eq_true, decide_eq_true_eq]
+  refine ⟨ht, ?_⟩
+  split_ifs with h3 <;> try rfl
+  have hv := (valid_hyperu_iff F _ _ _).1 (by simpa using h3)
+  obtain ⟨-, hz, hab, ha⟩ := hv
+  simp only [Bool.and_eq_true, decide_eq_true_eq]
+  refine ⟨⟨⟨le_of_lt hab, ha⟩, hz⟩, ⟨⟨by linarith, by linarith⟩, hz⟩, ⟨⟨by linarith, by linarith⟩, hz⟩,
+    ⟨by linarith, by linarith⟩, hz⟩
+
+/-- … **but not in floating point** (finding C18-a): for `y = 0` the asserted `b + 1 ≥ a + 2` reads
+`((a + 0) + 1) + 1 ≥ a + 2`, which fails after rounding for about 1 % of shapes.  Kernel-checked witness at `Float`
+(bit patterns of `t_i = 100`, `a_j = 0.2454364795427771`, `b_j = mu = 1e-3`, `y = 0`; the special functions do not
+matter): the recorded precondition of the GENERATED kernel is `false`, i.e. the numba kernel raises
+`AssertionError` instead of skipping — while with `y = 1` it is `true`. -/
+theorem mutation_sideways_assert_gap_float :
+    pre_mutation_sideways_moments (α := Float) ⟨fun x => x, fun x => x, fun x => x, fun x => x, fun _ => true⟩
+      (Float.ofBits 0x4059000000000000) (Float.ofBits 0x3fcf6a766a70d84a) (Float.ofBits 0x3f50624dd2f1a9fc)
+      (Float.ofBits 0) (Float.ofBits 0x3f50624dd2f1a9fc) = false ∧
+    pre_mutation_sideways_moments (α := Float) ⟨fun x => x, fun x => x, fun x => x, fun x => x, fun _ => true⟩
+      (Float.ofBits 0x4059000000000000) (Float.ofBits 0x3fcf6a766a70d84a) (Float.ofBits 0x3f50624dd2f1a9fc)
+      (Float.ofBits 0x3ff0000000000000) (Float.ofBits 0x3f50624dd2f1a9fc) = true := by
+  constructor <;> decide +kernel
+
 /-! ## The full statement (partial: see the header) -/
 
 /-- C18 in full for one kernel, as a statement about the real special functions: "the returned mean is within
